@@ -75,7 +75,7 @@ fn step_plain<const NCLS: i64, const VAL: u8, const LOWER: bool, const FULL: boo
     std::mem::forget(st); std::mem::forget(a); std::mem::forget(v);
 }
 macro_rules! stp { ($($n:ident: $k:expr, $v:expr, $l:expr, $f:expr;)*) => { $(#[kani::proof] #[kani::unwind(3)]
-    #[kani::stub(std::ptr::drop_in_place, no_drop)] #[kani::stub(core::ptr::drop_glue, no_glue)]
+    #[kani::stub(std::ptr::drop_in_place, no_drop)] #[kani::stub(core::ptr::drop_glue, no_glue)] #[kani::stub(std::vec::Vec::extend_from_slice, extend_from_slice_model)]
     #[kani::stub(crate::util::transform_text, tt_marker)] #[kani::stub(crate::util::is_jsx_attr_value_constant, const_model)] #[kani::stub(alloc::fmt::format, fmt_marker)]
     fn $n() { step_plain::<$k, $v, $l, $f>() })* } }
 stp! {
@@ -85,7 +85,7 @@ stp! {
 }
 
 macro_rules! stp9 { ($($n:ident: $k:expr, $v:expr, $l:expr, $f:expr;)*) => { $(#[kani::proof] #[kani::unwind(9)]
-    #[kani::stub(std::ptr::drop_in_place, no_drop)] #[kani::stub(core::ptr::drop_glue, no_glue)]
+    #[kani::stub(std::ptr::drop_in_place, no_drop)] #[kani::stub(core::ptr::drop_glue, no_glue)] #[kani::stub(std::vec::Vec::extend_from_slice, extend_from_slice_model)]
     #[kani::stub(crate::util::transform_text, tt_marker)] #[kani::stub(crate::util::is_jsx_attr_value_constant, const_model)] #[kani::stub(alloc::fmt::format, fmt_marker)]
     fn $n() { step_plain::<$k, $v, $l, $f>() })* } }
 stp9! { step_onclick_camel: 6, 0, false, false; step_onclick_lower: 6, 0, true, false; }
@@ -117,7 +117,10 @@ fn step_spread<const OBJ: bool, const PREV: bool, const MERGE: bool>() {
         if OBJ { assert!(matches!(last, Expr::Object(o) if o.props.len() == 1 && prop_key_str(&o.props[0]) == Some("k")), "C01: an object-literal spread is merged as that object"); }
         else { assert!(is_opaque(last, 2), "C01: a spread argument is merged as that expression"); }
     } else {
-        assert!(st.merge_args.len() == n_merge && st.props.len() == n_props + 1, "C01: without mergeProps the spread stays in the props object (last-wins)");
+        assert!(st.merge_args.len() == n_merge, "DBG merge_args unchanged");
+        assert!(st.props.len() >= n_props, "DBG props not shrunk");
+        assert!(st.props.len() <= n_props + 1, "DBG props at most +1");
+        assert!(st.props.len() == n_props + 1, "C01: without mergeProps the spread stays in the props object (last-wins)");
         if p.props_pp { assert!(prop_key_str(&st.props[0]) == Some("pp"), "C01: earlier props stay before the spread"); }
         let last = &st.props[n_props];
         if OBJ { assert!(prop_key_str(last) == Some("k"), "C01: an object-literal spread is inlined in place"); }
@@ -127,14 +130,14 @@ fn step_spread<const OBJ: bool, const PREV: bool, const MERGE: bool>() {
 }
 pub fn dedupe_identity(props: Vec<PropOrSpread>) -> Vec<PropOrSpread> { props }
 macro_rules! sts { ($($n:ident: $k:expr, $p:expr, $m:expr;)*) => { $(#[kani::proof] #[kani::unwind(4)]
-    #[kani::stub(std::ptr::drop_in_place, no_drop)] #[kani::stub(core::ptr::drop_glue, no_glue)] #[kani::stub(alloc::fmt::format, fmt_marker)]
+    #[kani::stub(std::ptr::drop_in_place, no_drop)] #[kani::stub(core::ptr::drop_glue, no_glue)] #[kani::stub(std::vec::Vec::extend_from_slice, extend_from_slice_model)] #[kani::stub(alloc::fmt::format, fmt_marker)]
     #[kani::stub(crate::util::dedupe_props, dedupe_identity)]
     fn $n() { step_spread::<$k, $p, $m>() })* } }
 sts! { step_spread_expr_merge: false, false, true; step_spread_expr_nomerge: false, false, false; step_spread_expr_prev_merge: false, true, true; step_spread_expr_prev_nomerge: false, true, false;
        step_spread_object_merge: true, false, true; step_spread_object_nomerge: true, false, false; step_spread_object_prev_merge: true, true, true; step_spread_object_prev_nomerge: true, true, false; }
 
 /// finalisation block == final_flags (shared contract), for every combination of the analysis booleans (complete)
-#[kani::proof] #[kani::unwind(3)] #[kani::stub(std::ptr::drop_in_place, no_drop)] #[kani::stub(core::ptr::drop_glue, no_glue)]
+#[kani::proof] #[kani::unwind(3)] #[kani::stub(std::ptr::drop_in_place, no_drop)] #[kani::stub(core::ptr::drop_glue, no_glue)] #[kani::stub(std::vec::Vec::extend_from_slice, extend_from_slice_model)]
 fn step_finalize() {
     let (dynkeys, cls, sty, hyd, has_ref, dp_nonempty, has_dirs): (bool, bool, bool, bool, bool, bool, bool) = kani::any();
     let mut dp: indexmap::IndexSet<Cow<'static, str>> = indexmap::IndexSet::new();
@@ -187,14 +190,14 @@ fn assemble<const NP: u8, const NM: u8>() {
     std::mem::forget(e); std::mem::forget(v);
 }
 macro_rules! asm { ($($n:ident: $a:expr, $b:expr;)*) => { $(#[kani::proof] #[kani::unwind(4)]
-    #[kani::stub(std::ptr::drop_in_place, no_drop)] #[kani::stub(core::ptr::drop_glue, no_glue)] #[kani::stub(alloc::fmt::format, fmt_marker)]
+    #[kani::stub(std::ptr::drop_in_place, no_drop)] #[kani::stub(core::ptr::drop_glue, no_glue)] #[kani::stub(std::vec::Vec::extend_from_slice, extend_from_slice_model)] #[kani::stub(alloc::fmt::format, fmt_marker)]
     fn $n() { assemble::<$a, $b>() })* } }
 asm! { asm_none: 0, 0; asm_one_prop: 1, 0; asm_two_props: 2, 0; asm_lone_spread: 3, 0; asm_one_merge: 0, 1; asm_two_merge: 0, 2; asm_merge_and_props: 1, 1; asm_two_merge_and_props: 2, 2; asm_repeated_plain: 4, 0; asm_repeated_class: 5, 0; }
 
 /// strict reading of C13 for the bare `on` attribute (without transformOn): a dynamic `on` prop is a prop like any other
 /// and must be covered.  Isolated: the pinned code (like the Babel plugin) never records `on`.
 #[kani::proof] #[kani::unwind(3)]
-#[kani::stub(std::ptr::drop_in_place, no_drop)] #[kani::stub(core::ptr::drop_glue, no_glue)]
+#[kani::stub(std::ptr::drop_in_place, no_drop)] #[kani::stub(core::ptr::drop_glue, no_glue)] #[kani::stub(std::vec::Vec::extend_from_slice, extend_from_slice_model)]
 #[kani::stub(crate::util::transform_text, tt_marker)] #[kani::stub(crate::util::is_jsx_attr_value_constant, const_model)] #[kani::stub(alloc::fmt::format, fmt_marker)]
 fn step_on_strict() {
     let mut opts = any_options();
@@ -268,7 +271,7 @@ fn arrow_assigns_event_to(a: &ArrowExpr, target: u32) -> bool {
     p_ok && b_ok
 }
 macro_rules! std_h { ($($n:ident: $k:expr, $c:expr;)*) => { $(#[kani::proof] #[kani::unwind(3)]
-    #[kani::stub(std::ptr::drop_in_place, no_drop)] #[kani::stub(core::ptr::drop_glue, no_glue)]
+    #[kani::stub(std::ptr::drop_in_place, no_drop)] #[kani::stub(core::ptr::drop_glue, no_glue)] #[kani::stub(std::vec::Vec::extend_from_slice, extend_from_slice_model)]
     #[kani::stub(crate::directive::parse_directive, pd_model)] #[kani::stub(alloc::fmt::format, fmt_marker)]
     fn $n() { step_dir::<$k, $c>() })* } }
 std_h! { step_dir_normal: 0, false; step_dir_normal_comp: 0, true; step_dir_html: 1, false; step_dir_text: 2, false; step_dir_html_comp: 1, true;
@@ -288,14 +291,14 @@ fn step_spread_flag<const OBJ: bool>() {
     std::mem::forget(st); std::mem::forget(s); std::mem::forget(v);
 }
 macro_rules! stf { ($($n:ident: $k:expr;)*) => { $(#[kani::proof] #[kani::unwind(4)]
-    #[kani::stub(std::ptr::drop_in_place, no_drop)] #[kani::stub(core::ptr::drop_glue, no_glue)] #[kani::stub(alloc::fmt::format, fmt_marker)]
+    #[kani::stub(std::ptr::drop_in_place, no_drop)] #[kani::stub(core::ptr::drop_glue, no_glue)] #[kani::stub(std::vec::Vec::extend_from_slice, extend_from_slice_model)] #[kani::stub(alloc::fmt::format, fmt_marker)]
     #[kani::stub(crate::util::dedupe_props, dedupe_identity)]
     fn $n() { step_spread_flag::<$k>() })* } }
 stf! { step_spread_flag_expr: false; step_spread_flag_object: true; }
 
 // a caller verified against the CONTRACTS of is_on (not its body): the plain arm for a listener name
 #[kani::proof] #[kani::unwind(3)]
-#[kani::stub(std::ptr::drop_in_place, no_drop)] #[kani::stub(core::ptr::drop_glue, no_glue)]
+#[kani::stub(std::ptr::drop_in_place, no_drop)] #[kani::stub(core::ptr::drop_glue, no_glue)] #[kani::stub(std::vec::Vec::extend_from_slice, extend_from_slice_model)]
 #[kani::stub(crate::util::transform_text, tt_marker)] #[kani::stub(crate::util::is_jsx_attr_value_constant, const_model)] #[kani::stub(alloc::fmt::format, fmt_marker)]
 #[kani::stub_verified(crate::util::is_on)]
 fn step_listener_modular() { step_plain::<8, 0, false, false>() }
@@ -322,7 +325,7 @@ fn optimize_frame_plain<const NCLS: i64>() {
     std::mem::forget(s1); std::mem::forget(s2); std::mem::forget(a); std::mem::forget(v1); std::mem::forget(v2);
 }
 macro_rules! of_h { ($($n:ident: $k:expr;)*) => { $(#[kani::proof] #[kani::unwind(3)]
-    #[kani::stub(std::ptr::drop_in_place, no_drop)] #[kani::stub(core::ptr::drop_glue, no_glue)]
+    #[kani::stub(std::ptr::drop_in_place, no_drop)] #[kani::stub(core::ptr::drop_glue, no_glue)] #[kani::stub(std::vec::Vec::extend_from_slice, extend_from_slice_model)]
     #[kani::stub(crate::util::transform_text, tt_marker)] #[kani::stub(crate::util::is_jsx_attr_value_constant, const_model)] #[kani::stub(alloc::fmt::format, fmt_marker)]
     fn $n() { optimize_frame_plain::<$k>() })* } }
 of_h! { optframe_class: 1; optframe_on: 4; optframe_listener: 8; optframe_other: 9; }
